@@ -156,9 +156,15 @@ def _optional_sanitized(A, f, node, arg, conv):
 
 
 # ---------------------------------------------------------------- R07.b
-def clamp_interval(A, f, e, param):
+def clamp_interval(A, f, e, param, env=None):
     """(lo, hi, rounded) such that e == [round](clamp(param, lo, hi))."""
     rounded = False
+    env = env or {}
+
+    def const(x):
+        if isinstance(x, ast.Name) and x.id in env:
+            return env[x.id]
+        return A.try_fold(x, f)
     if isinstance(e, ast.Call) and norm(e.func) == 'round' and len(e.args) == 1:
         rounded = True
         e = e.args[0]
@@ -169,7 +175,7 @@ def clamp_interval(A, f, e, param):
         if isinstance(x, ast.Call) and norm(x.func) in ('min', 'max') \
                 and len(x.args) == 2:
             a, b = x.args
-            ka, kb = A.try_fold(a, f), A.try_fold(b, f)
+            ka, kb = const(a), const(b)
             if isinstance(ka, (int, float)) and not isinstance(kb, (int, float)):
                 k, inner = ka, rec(b)
             elif isinstance(kb, (int, float)):
@@ -199,6 +205,26 @@ def r07b(R):
         rets = [n for n in walk_own(f.node) if isinstance(n, ast.Return)]
         iv = clamp_interval(A, f, rets[0].value, f.params[0]) \
             if len(rets) == 1 else None
+        if iv is None and len(rets) == 1 and isinstance(rets[0].value, ast.Call):
+            # return _helper(param, LIMIT): evaluate the helper's return with
+            # the constant arguments substituted
+            call = rets[0].value
+            callees = A.callees(f, call)
+            if len(callees) == 1:
+                h = callees[0]
+                hrets = [n for n in walk_own(h.node) if isinstance(n, ast.Return)]
+                if len(hrets) == 1 and len(call.args) == len(h.params):
+                    env = {}
+                    xparam = None
+                    for p, a in zip(h.params, call.args):
+                        if isinstance(a, ast.Name) and a.id == f.params[0]:
+                            xparam = p
+                        else:
+                            v = A.try_fold(a, f)
+                            if v is not None:
+                                env[p] = v
+                    if xparam is not None:
+                        iv = clamp_interval(A, h, hrets[0].value, xparam, env)
         R.check(f, rets[0].value if rets else name,
                 iv is not None and iv[0] == 0 and iv[1] == hi and iv[2],
                 '%s must be round(clamp(x, 0, %d)); found %s' % (name, hi, iv))
@@ -351,7 +377,7 @@ def _returned_components(A, f):
                 for i, (name, arg) in enumerate(zip(t.elts, st.value.args)):
                     env['<in:%s:%d>' % (norm(st.value.func), i)] = \
                         linear(A, f, arg, env)
-                    env[name.id] = {'unit:%s' % name.id: 1.0}
+                    env[name.id] = {'unit:%d' % i: 1.0}
         elif isinstance(st, ast.If):
             # hue special-casing: take the general (else) branch
             for sub in st.orelse:
@@ -371,14 +397,16 @@ def _expectations(param):
     return {
         'logical_to_raw': [(('mod', '%s[0]' % p, 360.0), 65535.0 / 360.0),
                            None, None, ('%s[3]' % p, 1.0)],
-        'raw_to_logical': [('%s[0]' % p, 360.0 / 65535.0), None, None, None],
+        'raw_to_logical': [('%s[0]' % p, 360.0 / 65535.0),
+                           ('%s[1]' % p, 100.0 / 65535.0),
+                           ('%s[2]' % p, 100.0 / 65535.0), None],
         'rgb_to_raw': [None, None, None, ('%s[3]' % p, 1.0)],
-        'rgb_to_logical': [('unit:h', 360.0), ('unit:s', 100.0),
-                           ('unit:v', 100.0), ('%s[3]' % p, 1.0)],
-        'raw_to_rgb': [('unit:r', 100.0), ('unit:g', 100.0), ('unit:b', 100.0),
+        'rgb_to_logical': [('unit:0', 360.0), ('unit:1', 100.0),
+                           ('unit:2', 100.0), ('%s[3]' % p, 1.0)],
+        'raw_to_rgb': [('unit:0', 100.0), ('unit:1', 100.0), ('unit:2', 100.0),
                        ('%s[3]' % p, 1.0)],
-        'logical_to_rgb': [('unit:r', 100.0), ('unit:g', 100.0),
-                           ('unit:b', 100.0), ('%s[3]' % p, 1.0)],
+        'logical_to_rgb': [('unit:0', 100.0), ('unit:1', 100.0),
+                           ('unit:2', 100.0), ('%s[3]' % p, 1.0)],
     }
 
 
@@ -469,22 +497,6 @@ def r07c(R):
             sorted(norm(c.args[0]) for c in pct) ==
             ['%s[1]' % f.params[0], '%s[2]' % f.params[0]],
             'saturation/brightness are not converted with _pct_to_raw')
-    f = fn('raw_to_logical')
-    forms = []
-    env = {}
-    for st in f.node.body:
-        if isinstance(st, ast.Assign) and isinstance(st.targets[0], ast.Name):
-            try:
-                env[st.targets[0].id] = linear(A, f, st.value, env)
-            except NotLinear:
-                pass
-            if st.targets[0].id in ('s', 'b'):
-                forms.append(_single(env.get(st.targets[0].id, {})))
-    R.check(f, 'saturation/brightness coefficient 100/65535',
-            len(forms) == 2 and all(x is not None and _close(x[1], 100.0 / 65535.0)
-                                    for x in forms),
-            'raw saturation/brightness must be scaled by 100/65535 (found %s)'
-            % forms)
     # the VM takes raw time as milliseconds
     w = A.func(MACHINE, 'Machine._wait')
     ok = False
